@@ -308,14 +308,15 @@ func factsPoolRoute(id uint64, in, out string) swaptypes.Route {
 func stepSwaps(d *hdrv, r *Rng, npools int) {
 	amt := func() sdkmath.Int { return sdkmath.NewInt(int64(1000 + r.N(50_000))) }
 	d.tx(5, &swaptypes.MsgSwapExactAmountIn{Sender: d.addr(5), Route: factsPoolRoute(0, "uaaa", "ubbb"), AmountIn: amt(), MinAmountOut: sdkmath.OneInt()})
-	d.tx(6, &swaptypes.MsgSwapExactAmountIn{Sender: d.addr(6), Route: factsPoolRoute(0, "ubbb", "uaaa"), AmountIn: amt(), MinAmountOut: sdkmath.OneInt()})
+	// with an interface provider: the fee transfer and everything emitted next to it
+	d.tx(6, &swaptypes.MsgSwapExactAmountIn{Sender: d.addr(6), InterfaceProvider: d.addr(3), Route: factsPoolRoute(0, "ubbb", "uaaa"), AmountIn: amt(), MinAmountOut: sdkmath.OneInt()})
 	if npools >= 3 {
 		series := swaptypes.Route{DenomIn: "uaaa", DenomOut: "uccc", Strategy: &swaptypes.Route_Series{Series: &swaptypes.RouteSeries{Routes: []swaptypes.Route{factsPoolRoute(0, "uaaa", "ubbb"), factsPoolRoute(1, "ubbb", "uccc")}}}}
 		d.tx(7, &swaptypes.MsgSwapExactAmountIn{Sender: d.addr(7), Route: series, AmountIn: amt(), MinAmountOut: sdkmath.OneInt()})
 		par := swaptypes.Route{DenomIn: "uaaa", DenomOut: "uccc", Strategy: &swaptypes.Route_Parallel{Parallel: &swaptypes.RouteParallel{
 			Routes: []swaptypes.Route{factsPoolRoute(2, "uaaa", "uccc"), series}, Weights: []string{"0.5", "0.5"}}}}
 		d.tx(4, &swaptypes.MsgSwapExactAmountIn{Sender: d.addr(4), Route: par, AmountIn: amt(), MinAmountOut: sdkmath.OneInt()})
-		d.tx(5, &swaptypes.MsgSwapExactAmountOut{Sender: d.addr(5), Route: factsPoolRoute(2, "uaaa", "uccc"), MaxAmountIn: sdkmath.NewInt(1_000_000), AmountOut: sdkmath.NewInt(int64(500 + r.N(2000)))})
+		d.tx(5, &swaptypes.MsgSwapExactAmountOut{Sender: d.addr(5), InterfaceProvider: d.addr(3), Route: factsPoolRoute(2, "uaaa", "uccc"), MaxAmountIn: sdkmath.NewInt(1_000_000), AmountOut: sdkmath.NewInt(int64(500 + r.N(2000)))})
 	}
 	d.block(6 * time.Second)
 }
